@@ -1943,7 +1943,22 @@ impl SctpInner {
             let a_rwnd = buf.get_u32();
             let num_gap_ack_blocks = buf.get_u16();
             let _num_duplicate_tsns = buf.get_u16();
-            let old_rwnd = self.peer_rwnd.swap(a_rwnd, Ordering::SeqCst);
+            // A SACK that was overtaken in the network carries a window that is out
+            // of date as well. Everything before the oldest outstanding TSN (or, with
+            // nothing outstanding, everything sent) has been acknowledged by a SACK
+            // already processed; one whose cumulative ack is behind that point is
+            // older and must not set the window - a stale a_rwnd of 0 arriving at an
+            // idle sender would stop it for good (no data in flight, so no newer SACK
+            // will ever correct it).
+            let acked_so_far = match oldest_outstanding_tsn(&self.sent_queue.lock()) {
+                Some(head) => head.wrapping_sub(1),
+                None => self.next_tsn.load(Ordering::SeqCst).wrapping_sub(1),
+            };
+            let old_rwnd = if tsn_gt(acked_so_far, cumulative_tsn_ack) {
+                self.peer_rwnd.load(Ordering::SeqCst)
+            } else {
+                self.peer_rwnd.swap(a_rwnd, Ordering::SeqCst)
+            };
 
             // Log peer_rwnd to understand flow control
             if a_rwnd < 100000 {
